@@ -23,7 +23,8 @@ DIMS = DimensionSet(dim_list=[DIMOBJ[l] for l in CANON])
 DIMSETS = [DIMOBJ, {
     "t": Dimension(name="Time", letter="t", items=[1990, 2005], dtype=int),
     "r": Dimension(name="Region", letter="r", items=["west", "east", "centre"], dtype=str),
-    "e": Dimension(name="Element", letter="e", items=["Al", "Zn"], dtype=str),
+    # (string items that are all digits: a CSV reader parses them as integers)
+    "e": Dimension(name="Element", letter="e", items=["13", "30"], dtype=str),
 }]
 
 
@@ -315,6 +316,8 @@ def run_sankey(vec):
 
 def line_val(letters, idx):
     lab = {l: i + 1 for l, i in zip(letters, idx)}
+    if lab.get("r", 0) == 2:
+        return 0.0
     return float(1 + 10 * lab.get("t", 0) + 3 * lab.get("r", 0) + 100 * lab.get("e", 0))
 
 
